@@ -9,6 +9,7 @@ UNITS = {
     'SENDSPLIT': dict(template='sendsplit.rs', rlimit=30),
     'LINK': dict(template='link.rs', rlimit=30),
     'REASM': dict(template='reasm.rs', rlimit=30),
+    'TXN': dict(template='txn.rs', rlimit=30),
 }
 
 COMMON_TRUSTED = [
@@ -95,6 +96,13 @@ PROPS = {
             'the link endpoint (ReceiverLink::on_complete_transfer: credit, decode) is a stand-in that decodes exactly the bytes it is given',
             'resumption (transfer.state = Received{..}, transfer.resume) may trim the buffer and is outside these contracts',
             'interleaving with other links of the session is the routing contract of unit SESSION (C11.route.transfer)']),
+    'C18': dict(
+        units=['TXN'], kani=[], level='proof', title='Listener-side transactions (resource side table)',
+        assumptions=[ASYNC,
+            'the wrapped plain session is a stand-in with a ghost `delivered` log; built as with features transaction+acceptor',
+            'allocate_transaction_id: partial correctness only (the uuid retry loop has no termination argument)',
+            'commit_transaction that fails midway (inner session error) has already handed on a prefix of the posts: the contract only covers r is Ok',
+            'NOT DECIDED: the coordinator link (TxnCoordinator event loop, abort on Drop / controlling link going away), the controller side (Transaction / OwnedTransaction putting txn-id and fail flag on the wire), several concurrent control links']),
     'C11': dict(
         units=['SESSION', 'FRAMEENC', 'CONN', 'SENDSPLIT'],
         lemmas={'SENDSPLIT': ['lemma_link_expected'], 'FRAMEENC': ['lemma_expected_properties']}, kani=[], level='proof', title='Identifiers',
